@@ -558,6 +558,13 @@ class Ctx:
             "input_distribution": self.hist,
             "known_findings_printed": self.known_printed,
         }
+        # every listed open finding gets its line, also when this run's inputs did not reach its class
+        not_reached = []
+        for k in self.known:
+            if k.get("status", "open") == "open" and k.get("id") not in self.known_printed:
+                not_reached.append(k.get("id"))
+                print(f"KNOWN-FINDING: property={self.prop} {k.get('what', k.get('id'))} [listed; its class was not reached by the inputs of this run]", flush=True)
+        cov["known_findings_listed_not_reached"] = not_reached
         if explanation:
             cov["explanation"] = explanation
         if extra:
